@@ -50,6 +50,13 @@ class NdArrayModel:
         return o2
 
     @staticmethod
+    def m_squeeze(ex, o, axis=None):
+        if axis is not None:
+            raise Unsupported('squeeze(axis=...)')
+        dims = [d for d in o.f['shape'] if not ex.truth(ex.eq(d, 1))]       # every length-1 axis is removed (forks on symbolic sizes)
+        return new_array(ex, tuple(dims), o.f['pix'], o.f['flags'].f['writeable'], 'squeeze')
+
+    @staticmethod
     def _bytes(ex, o, order):
         """the byte string of the array in the given order: logical C order, or memory order (== C order only for a C-contiguous array)"""
         if order == 'C' or o.f['contig'] is True:
@@ -135,10 +142,24 @@ class NpModel:
         return a.f['pix'] == b.f['pix']
 
 
+def _same_dim(a, b):
+    return a is b or (isinstance(a, z3.ExprRef) and isinstance(b, z3.ExprRef) and a.eq(b)) or (isinstance(a, int) and isinstance(b, int) and a == b)
+
+
 class BufViewModel:
     @staticmethod
-    def m_reshape(ex, o, shape):
+    def m_reshape(ex, o, *shape):
         b = o.f['blob']
+        if len(shape) == 1 and isinstance(shape[0], (tuple, list)):
+            shape = tuple(shape[0])
+        shape = list(shape)
+        if any(isinstance(d, int) and d == -1 for d in shape):
+            # numpy infers the -1 dimension from the buffer length: known here only when the other dimensions are the leading ones of the array the bytes came from
+            src = b.f.get('src_shape')
+            others = [d for d in shape if not (isinstance(d, int) and d == -1)]
+            if src is None or len(others) != 2 or shape[-1] != -1 or not (_same_dim(others[0], src[0]) and _same_dim(others[1], src[1])):
+                raise Unsupported('reshape(..., -1) whose inferred dimension is not determined by the model')
+            shape[-1] = src[2] if len(src) == 3 else 1
         ex.__dict__.setdefault('np_calls', []).append(('reshape', o, tuple(shape)))
         return new_array(ex, tuple(shape), UNRAW(b.f['bytes']), False if b.f['kind'] == 'bytes' else True, 'frombuffer')
 
@@ -193,7 +214,9 @@ def b_bytearray(ex, v=None):
         return blob(ex, v.f['bytes'], True, v.f['h'], v.f['w'], v.f['ch'], kind='bytearray')      # imencode('.jpg') yields a JPEG (starts with ff d8)
     if isinstance(v, Obj) and v.cls == 'ndarray':
         ex.__dict__.setdefault('np_calls', []).append(('tobytes', v))
-        return blob(ex, RAW(v.f['pix']), fresh_bool('raw_starts_like_jpg'), kind='bytearray')
+        b = blob(ex, RAW(v.f['pix']), fresh_bool('raw_starts_like_jpg'), kind='bytearray')
+        b.f['src_shape'] = v.f['shape']
+        return b
     if isinstance(v, Obj) and v.cls == 'blob':
         return blob(ex, v.f['bytes'], v.f['is_jpg'], v.f['h'], v.f['w'], v.f['ch'], kind='bytearray')
     if isinstance(v, Obj) and v.cls == 'flatview':
